@@ -8,5 +8,7 @@ CONSTANTS
   BugFirstWins = TRUE
   AllowNumericDocKeys = FALSE
   BugOkWithoutAddr = FALSE
+  BugU64ViaI64 = FALSE
+  BugCompKeepsRule = FALSE
 INVARIANTS LastWins
 CHECK_DEADLOCK FALSE
